@@ -20,7 +20,23 @@ import (
 //  workarounds for the non-finite case.
 
 func decToD128(d decimal.Decimal) primitive.Decimal128 {
-	dd, _ := primitive.ParseDecimal128FromBigInt(d.Coefficient(), int(d.Exponent()))
+	// round (half even) to the 34 significant digits a decimal128 can hold
+	if n := int32(d.NumDigits()); n > 34 {
+		d = d.RoundBank(-d.Exponent() - (n - 34))
+	}
+
+	// convert number
+	dd, ok := primitive.ParseDecimal128FromBigInt(d.Coefficient(), int(d.Exponent()))
+	if !ok && int(d.Exponent())+d.NumDigits() > primitive.MaxDecimal128Exp {
+		// the number is too big: overflow to infinity (numbers that are too
+		// small underflow to zero)
+		if d.Sign() < 0 {
+			dd, _ = primitive.ParseDecimal128("-Infinity")
+		} else {
+			dd, _ = primitive.ParseDecimal128("Infinity")
+		}
+	}
+
 	return dd
 }
 
